@@ -70,6 +70,9 @@ Proof.
   rewrite firstn_app, Nat.sub_diag, firstn_all, skipn_app, Nat.sub_diag, skipn_all. cbn. now rewrite app_nil_r.
 Qed.
 
+Lemma take_app' a b pos n : n = length a -> take n (mkP (a ++ b) pos) = Ok (a, mkP b (pos + n)).
+Proof. intros ->. apply take_app. Qed.
+
 Lemma take_ok n p v p' :
   take n p = Ok (v, p') ->
   p_rest p = v ++ p_rest p' /\ length v = n /\ p_pos p' = (p_pos p + n)%nat.
